@@ -231,3 +231,7 @@ func (a *VerifApp) VerifForwardAuthClient(c *http.Client) {
 func VerifRequiresRestart(next, running config.Compiled) bool {
 	return requiresRestartForReload(next, running)
 }
+
+// VerifAllowIngress is the rate-limit decision the ingress handler makes for a resolved route (narrow seam for the
+// concurrent limiter exploration; the full handler path is covered by the sequential enumeration).
+func (a *VerifApp) VerifAllowIngress(route string) bool { return a.State.allowIngress(route) }
